@@ -492,6 +492,13 @@ def numeric_cases(rng):
     out.append(("rate-zero2", txn("A  10 USD @ 0 EUR", "B"), True))
     out.append(("pair-zero", txn("A  10 USD", "B  0 EUR"), True))
     out.append(("pair-same-sign", txn("A  10 USD", "B  5 EUR"), True))
+    # every sign pattern of a two-commodity residual with a zero entry (the pair branch divides one by the other)
+    for a, b in (("-10", "0"), ("0", "-10"), ("0", "10"), ("-10", "-0"), ("0.00", "-0.5"), ("-0", "0")):
+        out.append(("pair-zero%s/%s" % (a, b), txn("A  %s USD" % a, "B  %s EUR" % b), True))
+    out.append(("pair-cancel", txn("Cash  -10 USD", "Food  5.00 EUR", "Wallet  -5.00 EUR"), True))
+    out.append(("pair-cancel2", txn("Cash  10 USD", "Food  -5.00 EUR", "Wallet  5.00 EUR"), True))
+    out.append(("pair-round-zero", "commodity EUR\n    format 1.00 EUR\n" + txn("A  -10 USD", "B  0.004 EUR"), True))
+    out.append(("pair-round-zero2", "commodity USD\n    format 1.00 USD\n" + txn("A  -0.004 USD", "B  -3 EUR"), True))
     out.append(("pair-tiny", txn("A  1 USD", "B  -0.0000000000000000000000000001 EUR"), True))
     out.append(("pair-third", txn("A  3 USD", "B  -1 EUR", "C  1 USD @ 0.3333333333333333333333333333 EUR", "D"), True))
     out.append(("round-half", "commodity USD\n    format 1.00 USD\n" + txn("A  0.005 USD", "B  -0.015 USD", "C  0.01 USD"), True))
@@ -971,6 +978,15 @@ def run(chk):
         R.add_inproc("grammatical", enc(t), dict(info, inexact=False))
         for c in CLI_CMDS:
             R.add_cli("grammatical", c, enc(t), info, also_cmd=(k % 5 == 0))
+
+    # --- (4b) the book-keeping generator of C01-C04 (all flavors, the rejected ones included): no expectation but "no crash"
+    from ledgergen import Gen
+    bg = Gen(rng)
+    for k in range(400 if quick else 8000):
+        t, _meta = bg.ledger()
+        R.add_inproc("bookgen", enc(t), {"single": True, "inexact": True})
+        if k % (8 if quick else 40) == 0:
+            R.add_cli("bookgen", rng.choice(["balance", "register"]), enc(t), {"single": True})
 
     # --- (5) numeric edge cases
     for name, text, in_range in numeric_cases(rng):
